@@ -359,3 +359,207 @@ func RunEncodingLevels(c *Ctx, pkgs []string) {
 	}
 	c.R.Extra["url_field_stores"] = nStores
 }
+
+// RunFormatStrings (E8.fmt): a value that is data must not be used as a printf format.  Printf-like functions are the
+// fmt family plus every in-module function that forwards a (format string, args ...any) pair to one of them (computed
+// by fixpoint: oidc.(*Error).WithDescription is one).  A call whose format argument is not a constant and that passes
+// no further arguments interprets its data as a format: every '%' in it is rewritten ("%!z(MISSING)").
+func RunFormatStrings(c *Ctx, pkgs []string) {
+	sentinelProg = c.P
+	in := map[string]bool{}
+	for _, p := range pkgs {
+		in[p] = true
+	}
+	type pf struct{ fmtIdx int }
+	printfLike := map[string]pf{
+		"fmt.Sprintf": {0}, "fmt.Errorf": {0}, "fmt.Printf": {0}, "fmt.Fprintf": {1}, "log.Printf": {0}, "log.Fatalf": {0},
+	}
+	byObj := map[*types.Func]*FuncInfo{}
+	for _, fi := range c.P.Funcs {
+		if fi.Obj != nil {
+			byObj[fi.Obj] = fi
+		}
+	}
+	name := func(fn *types.Func) string {
+		if fn.Pkg() != nil && inModule(fn.Pkg().Path()) {
+			return FuncName(fn)
+		}
+		return calleeName(fn)
+	}
+	std := func(fn *types.Func) string {
+		if fn.Pkg() == nil {
+			return ""
+		}
+		return fn.Pkg().Path() + "." + fn.Name()
+	}
+	lookup := func(fn *types.Func) (pf, bool) {
+		if p, ok := printfLike[std(fn)]; ok && fn.Type().(*types.Signature).Recv() == nil {
+			return p, true
+		}
+		p, ok := printfLike[name(fn)]
+		return p, ok
+	}
+	for changed := true; changed; {
+		changed = false
+		for _, fi := range c.P.Funcs {
+			if fi.Body == nil || fi.Obj == nil || fi.Sig == nil || !fi.Sig.Variadic() {
+				continue
+			}
+			if _, done := printfLike[fi.Name]; done {
+				continue
+			}
+			np := fi.Sig.Params().Len()
+			if np < 2 {
+				continue
+			}
+			fmtParam, argsParam := fi.Sig.Params().At(np-2), fi.Sig.Params().At(np-1)
+			if b, ok := fmtParam.Type().Underlying().(*types.Basic); !ok || b.Kind() != types.String {
+				continue
+			}
+			info := fi.Pkg.TypesInfo
+			ast.Inspect(fi.Body, func(n ast.Node) bool {
+				call, ok := n.(*ast.CallExpr)
+				if !ok || !call.Ellipsis.IsValid() {
+					return true
+				}
+				fn, _ := typeutilCallee(info, call)
+				if fn == nil {
+					return true
+				}
+				p, ok := lookup(fn)
+				if !ok || p.fmtIdx >= len(call.Args) {
+					return true
+				}
+				fid, ok1 := unparen(call.Args[p.fmtIdx]).(*ast.Ident)
+				aid, ok2 := unparen(call.Args[len(call.Args)-1]).(*ast.Ident)
+				if ok1 && ok2 && info.Uses[fid] == fmtParam && info.Uses[aid] == argsParam {
+					printfLike[fi.Name] = pf{np - 2}
+					changed = true
+				}
+				return true
+			})
+		}
+	}
+	var wrappers []string
+	for k := range printfLike {
+		if !strings.HasPrefix(k, "fmt.") && !strings.HasPrefix(k, "log.") {
+			wrappers = append(wrappers, k)
+		}
+	}
+	sort.Strings(wrappers)
+	c.R.Extra["printf_like_wrappers"] = wrappers
+	n := 0
+	for _, fi := range c.P.Funcs {
+		if fi.Body == nil || (!in[shortPkg(fi.Pkg.PkgPath)] && !fi.Ctl) {
+			continue
+		}
+		info := fi.Pkg.TypesInfo
+		ast.Inspect(fi.Body, func(nd ast.Node) bool {
+			if lit, ok := nd.(*ast.FuncLit); ok && lit != fi.Lit {
+				return false
+			}
+			call, ok := nd.(*ast.CallExpr)
+			if !ok {
+				return true
+			}
+			fn, _ := typeutilCallee(info, call)
+			if fn == nil {
+				return true
+			}
+			p, ok := lookup(fn)
+			if !ok || p.fmtIdx >= len(call.Args) || call.Ellipsis.IsValid() {
+				return true
+			}
+			format := call.Args[p.fmtIdx]
+			tv := info.Types[format]
+			n++
+			bad := tv.Value == nil && len(call.Args) == p.fmtIdx+1 && !constantSentinelText(info, format)
+			c.R.Obl(Obligation{Rule: "E8.fmt", Func: fi.Name, Construct: "format of " + fn.Name(), Pos: c.P.Position(call.Pos()), Discharged: !bad, Nontrivial: tv.Value == nil, Ctl: fi.Ctl})
+			if bad {
+				c.R.Find(Finding{Rule: "E8.fmt", Func: fi.Name, Construct: "data used as format in " + fn.Name() + "(" + types.ExprString(format) + ")", Pos: c.P.Position(call.Pos()),
+					Msg: fmt.Sprintf("`%s` passes the non-constant string `%s` as a printf format without arguments: any '%%' in it is rewritten (\"%%!x(MISSING)\"), so the text that reaches the client differs from the text produced", types.ExprString(call.Fun), types.ExprString(format)), Ctl: fi.Ctl})
+			}
+			return true
+		})
+	}
+	c.R.Extra["printf_like_call_sites"] = n
+}
+
+func typeutilCallee(info *types.Info, call *ast.CallExpr) (*types.Func, bool) {
+	fun := unparen(call.Fun)
+	var id *ast.Ident
+	switch f := fun.(type) {
+	case *ast.Ident:
+		id = f
+	case *ast.SelectorExpr:
+		id = f.Sel
+	}
+	if id == nil {
+		return nil, false
+	}
+	fn, ok := info.Uses[id].(*types.Func)
+	return fn, ok
+}
+
+
+// constantSentinelText: X.Error() where X is a package-level error variable created by errors.New("<literal without %>").
+func constantSentinelText(info *types.Info, e ast.Expr) bool {
+	call, ok := unparen(e).(*ast.CallExpr)
+	if !ok || len(call.Args) != 0 {
+		return false
+	}
+	sel, ok := unparen(call.Fun).(*ast.SelectorExpr)
+	if !ok || sel.Sel.Name != "Error" {
+		return false
+	}
+	var obj types.Object
+	switch x := unparen(sel.X).(type) {
+	case *ast.Ident:
+		obj = info.Uses[x]
+	case *ast.SelectorExpr:
+		obj = info.Uses[x.Sel]
+	}
+	v, ok := obj.(*types.Var)
+	if !ok || v.Pkg() == nil || v.Parent() != v.Pkg().Scope() {
+		return false
+	}
+	return sentinelLiteralOK(v)
+}
+
+var sentinelProg *Prog
+var sentinelCache = map[types.Object]bool{}
+
+// sentinelLiteralOK: the package-level variable is declared as errors.New("<string literal without %>").
+func sentinelLiteralOK(v *types.Var) bool {
+	if r, ok := sentinelCache[v]; ok {
+		return r
+	}
+	res := false
+	if sentinelProg != nil {
+		if pk := sentinelProg.ByPath[v.Pkg().Path()]; pk != nil {
+			for _, f := range pk.Syntax {
+				ast.Inspect(f, func(n ast.Node) bool {
+					vs, ok := n.(*ast.ValueSpec)
+					if !ok {
+						return true
+					}
+					for i, id := range vs.Names {
+						if pk.TypesInfo.Defs[id] != v || i >= len(vs.Values) {
+							continue
+						}
+						if call, ok := unparen(vs.Values[i]).(*ast.CallExpr); ok && len(call.Args) == 1 {
+							if tv, ok := pk.TypesInfo.Types[call.Args[0]]; ok && tv.Value != nil && !strings.Contains(tv.Value.ExactString(), "%") {
+								if sel, ok := unparen(call.Fun).(*ast.SelectorExpr); ok && sel.Sel.Name == "New" {
+									res = true
+								}
+							}
+						}
+					}
+					return true
+				})
+			}
+		}
+	}
+	sentinelCache[v] = res
+	return res
+}
